@@ -56,6 +56,7 @@ type Solver struct {
 	NoFallback                      bool
 	isFresh                         bool
 	QuickMs                         int
+	AlwaysFresh                     bool // decide every query non-incrementally
 	NFallback                       int
 	curTimeout                      int
 	Log                             io.Writer // optional transcript
@@ -260,11 +261,13 @@ func (s *Solver) Check(extras []*Term, want []*Term) (Result, map[string]uint64)
 	if quick == 0 {
 		quick = 400
 	}
-	r, m := s.checkInc(extras, want, quick)
-	if r != Unknown {
-		return r, m
+	if !s.AlwaysFresh {
+		r, m := s.checkInc(extras, want, quick)
+		if r != Unknown {
+			return r, m
+		}
+		s.NUnknown-- // not final
 	}
-	s.NUnknown-- // not final
 	s.NFallback++
 	f := s.fresh
 	f.TimeoutMs = s.TimeoutMs
@@ -276,7 +279,7 @@ func (s *Solver) Check(extras []*Term, want []*Term) (Result, map[string]uint64)
 	}
 	f.asserted = append(f.asserted[:0], s.asserted...)
 	t0 := time.Now()
-	r, m = f.checkInc(extras, want, s.TimeoutMs)
+	r, m := f.checkInc(extras, want, s.TimeoutMs)
 	s.SolverTime += time.Since(t0)
 	if d := time.Since(t0); s.SlowLog != nil && d > 2*time.Second {
 		fmt.Fprintf(s.SlowLog, "SLOW FALLBACK QUERY %.1fs result=%v asserted=%d extras=%d\n", d.Seconds(), r, len(s.asserted), len(extras))
